@@ -1,5 +1,5 @@
 """C06 -- each child type is changed only by the method its update strategy allows."""
-from props import sync_level
+from props import sync_level, all_families
 from plan_conv import CONV_PLAN
 
 MANIFEST = dict(
@@ -13,4 +13,4 @@ MANIFEST = dict(
 
 
 def run(scr, tier, replay_file):
-    return sync_level(scr, tier, "C06", "C06_", CONV_PLAN, replay_file)
+    return sync_level(scr, tier, "C06", "C06_", all_families(CONV_PLAN), replay_file)
